@@ -133,7 +133,19 @@ def _errs(e):
 
 def run(algo, X, rank, cfg, n_iter_max, tol=None):
     """Run one algorithm for n_iter_max sweeps.  tol=None: the iteration cap decides (the algorithm's own
-    'disabled' value is used); otherwise the given tolerance (convergence exit possible)."""
+    'disabled' value is used); otherwise the given tolerance (convergence exit possible).
+    cfg['tenalg'] (optional): run under that tensor-algebra backend ('core' / 'einsum') - a configuration axis."""
+    import tensorly as tl
+
+    if "tenalg" in cfg:
+        cfg = dict(cfg)
+        name = cfg.pop("tenalg")
+        with tl.tenalg.backend_context(name, local_threadsafe=True):
+            return _run(algo, X, rank, cfg, n_iter_max, tol)
+    return _run(algo, X, rank, cfg, n_iter_max, tol)
+
+
+def _run(algo, X, rank, cfg, n_iter_max, tol=None):
     import tensorly as tl
     from tensorly import decomposition as D
 
